@@ -374,6 +374,9 @@ pub struct Sim {
     /// keep finished futures alive until the environment reaps them (futures held by select!/join!)
     pub hold_finished: bool,
     pub zombies: BTreeMap<usize, CallFut>,
+    /// coupled clocks: every millisecond of virtual time also passes on the real clock (std::time), so that code which
+    /// reads the wall clock for a decision sees at least the virtual elapsed time
+    pub real_sleep: bool,
 }
 
 fn panic_msg(e: Box<dyn std::any::Any + Send>) -> String {
@@ -398,6 +401,7 @@ impl Sim {
             settle_rounds: 8,
             hold_finished: false,
             zombies: BTreeMap::new(),
+            real_sleep: false,
         }
     }
     pub fn now_ms(&self) -> u64 {
@@ -409,6 +413,7 @@ impl Sim {
         self.callers.clear();
         self.zombies.clear();
         self.hold_finished = false;
+        self.real_sleep = false;
         self.w = Arc::new(Mutex::new(World::new()));
         self.t0 = tokio::time::Instant::now();
         self.w.lock().unwrap().clock0 = self.t0;
@@ -645,6 +650,9 @@ impl Sim {
         let mut el = 0;
         while el < d {
             tokio::time::advance(Duration::from_millis(1)).await;
+            if self.real_sleep {
+                std::thread::sleep(Duration::from_millis(1));
+            }
             self.settle().await;
             el += 1;
             let any_flag = self.callers.values().any(|cl| cl.fut.is_some() && cl.flag.woken.load(Ordering::SeqCst) && !cl.spinner);
@@ -670,6 +678,9 @@ impl Sim {
     pub async fn advance_lazy(&mut self, d: u64) -> u64 {
         for _ in 0..d {
             tokio::time::advance(Duration::from_millis(1)).await;
+            if self.real_sleep {
+                std::thread::sleep(Duration::from_millis(1));
+            }
             self.settle().await;
         }
         let mut m = Sim::ev("advance");
